@@ -127,6 +127,18 @@ Corollary C05_full_false_by_getItem_column_index_not_offset : ~ C05_full.
 Proof. destruct C05_refuted_getItem_column_index_not_offset as (t & en & W & D & B). exact (bad_refutes gen_cfg t en W D B). Qed.
 Print Assumptions C05_full_false_by_getItem_column_index_not_offset.
 
+(* ---- signature: C05/isNotNull-operand-of-comparison *)
+(** (col('p').isNotNull() == lit(False)).isNotNull()   emits   NOT NOT "p" IS NULL = FALSE IS NULL *)
+Theorem C05_refuted_isNotNull_operand_of_comparison : exists t en, uwf t = true /\ udom en t = true /\ bad gen_cfg en t = true.
+Proof.
+  exists (UIsNotNull (UBin UEq (UIsNotNull (UCol "p"%string)) (ULit (VBool false)))).
+  exists (mkEnv ["a"%string; "b"%string; "s"%string; "t"%string; "p"%string; "q"%string] [VNull; VNull; VNull; (VStr ""%string); VNull; (VBool true)] [("l"%string, [(VInt (10)%Z); (VInt (20)%Z); (VInt (30)%Z)])]).
+  vm_compute. repeat split.
+Qed.
+Corollary C05_full_false_by_isNotNull_operand_of_comparison : ~ C05_full.
+Proof. destruct C05_refuted_isNotNull_operand_of_comparison as (t & en & W & D & B). exact (bad_refutes gen_cfg t en W D B). Qed.
+Print Assumptions C05_full_false_by_isNotNull_operand_of_comparison.
+
 (* ---- signature: C05/isNotNull-operand-of-eqNullSafe *)
 (** col('a').isNotNull().eqNullSafe(col('p'))   emits   NOT "a" IS NULL IS NOT DISTINCT FROM "p" *)
 Theorem C05_refuted_isNotNull_operand_of_eqNullSafe : exists t en, uwf t = true /\ udom en t = true /\ bad gen_cfg en t = true.
@@ -198,6 +210,18 @@ Qed.
 Corollary C05_full_false_by_like_operand_of_isin : ~ C05_full.
 Proof. destruct C05_refuted_like_operand_of_isin as (t & en & W & D & B). exact (bad_refutes gen_cfg t en W D B). Qed.
 Print Assumptions C05_full_false_by_like_operand_of_isin.
+
+(* ---- signature: C05/not-operand-of-comparison *)
+(** ((~col('q')) == lit(False)).isNull()   emits   NOT ("q") = FALSE IS NULL *)
+Theorem C05_refuted_not_operand_of_comparison : exists t en, uwf t = true /\ udom en t = true /\ bad gen_cfg en t = true.
+Proof.
+  exists (UIsNull (UBin UEq (UNot (UCol "q"%string)) (ULit (VBool false)))).
+  exists (mkEnv ["a"%string; "b"%string; "s"%string; "t"%string; "p"%string; "q"%string] [VNull; VNull; VNull; (VStr ""%string); VNull; (VBool true)] [("l"%string, [(VInt (10)%Z); (VInt (20)%Z); (VInt (30)%Z)])]).
+  vm_compute. repeat split.
+Qed.
+Corollary C05_full_false_by_not_operand_of_comparison : ~ C05_full.
+Proof. destruct C05_refuted_not_operand_of_comparison as (t & en & W & D & B). exact (bad_refutes gen_cfg t en W D B). Qed.
+Print Assumptions C05_full_false_by_not_operand_of_comparison.
 
 (* ---- signature: C05/not-operand-of-eqNullSafe *)
 (** (~col('p')).eqNullSafe(col('p'))   emits   NOT ("p") IS NOT DISTINCT FROM "p" *)
